@@ -44,7 +44,12 @@ func runCtxCase(a args, idx int, r *h.Rand) {
 			up = tok(cx+"|up|S") + "; " + slow + "exit 1"
 			info.UpFails[cx] = true
 		}
-		ctxs[cx] = runner.NewExecutionContext(&utils.Binary{}, "", variables.NewVariables(), []string{up}, []string{tok(cx + "|down")}, []string{tok(cx + "|cb")}, []string{tok(cx + "|ca")})
+		ups := []string{up}
+		if r.Chance(40) {
+			// a second up command that succeeds: a failure of the first one must not be forgotten
+			ups = append(ups, tok(cx+"|up2"))
+		}
+		ctxs[cx] = runner.NewExecutionContext(&utils.Binary{}, "", variables.NewVariables(), ups, []string{tok(cx + "|down")}, []string{tok(cx + "|cb")}, []string{tok(cx + "|ca")})
 	}
 	var tasks []*task.Task
 	for i := 0; i < ntask; i++ {
@@ -83,7 +88,8 @@ func runCtxCase(a args, idx int, r *h.Rand) {
 		info.Tasks[name] = tk
 		tasks = append(tasks, t)
 	}
-	out.Begin(fmt.Sprintf("ctx#%d %s", idx, how))
+	cancelBeforeFinish := r.Chance(25)
+	out.Begin(fmt.Sprintf("ctx#%d %s cancel_before_finish=%v", idx, how, cancelBeforeFinish))
 	tr := newQuietRunner()
 	tr.SetContexts(ctxs)
 	res := map[string]error{}
@@ -159,6 +165,11 @@ func runCtxCase(a args, idx int, r *h.Rand) {
 				res[t.Name] = s.Task.Error
 			}
 		}
+	}
+	if cancelBeforeFinish {
+		// the runner is cancelled after the tasks are done (nothing in flight): contexts that were used are
+		// still shut down at Finish
+		tr.Cancel()
 	}
 	lockedFinish(tr.Finish)
 	for name, tk := range info.Tasks {
